@@ -4,6 +4,7 @@ numbers with correctly rounded `+ − * /`, `Rrtk/Thm/Lemmas/SoftScalar.lean`), 
 -/
 import Rrtk.Thm.C01
 import Rrtk.Thm.Lemmas.SoftScalar
+import Rrtk.Thm.Lemmas.UnitI8
 set_option linter.unusedSectionVars false
 set_option linter.unusedSimpArgs false
 namespace Rrtk.Thm.C01
